@@ -76,7 +76,7 @@ def random_callset(rng, nsamples=None, nrecords=None, p_missing=None, p_multi=No
     if use_info:
         info_defs = {"DP": ("1", "Integer"), "AF": ("A", "Float"), "DB": ("0", "Flag")}
     if use_fmt:
-        fmt_defs.update({"DP": ("1", "Integer"), "GQ": ("1", "Integer")})
+        fmt_defs.update({"AD": ("R", "Integer"), "DP": ("1", "Integer"), "GQ": ("1", "Integer")})
     filters = ["PASS", "q10"] if rng.random() < 0.3 else ["PASS"]
     records = []
     pos = {c: 0 for c, _ in contigs}
@@ -138,7 +138,11 @@ def random_callset(rng, nsamples=None, nrecords=None, p_missing=None, p_multi=No
             # a record whose FORMAT has no GT key at all (valid): every sample is missing
             no_gt = True
             gts = [gt((None, None), False) for _ in range(ns)]
-            extra_fmt = {"DP": [rng.randrange(0, 300) for _ in range(ns)]}
+            if rng.random() < 0.5:
+                extra_fmt = {"DP": [rng.randrange(0, 300) for _ in range(ns)]}
+            else:
+                # two small integers per sample as the first FORMAT field: byte-compatible with an int8 diploid GT vector
+                extra_fmt = {"AD": [[rng.choice([2, 3, 4, 5]), rng.choice([2, 3, 4, 5])] for _ in range(ns)], "DP": [rng.randrange(0, 300) for _ in range(ns)]}
         rec = Record(contig, pos[contig], gts, ref=rng.choice(["A", "C", "G", "T", "AT"]), alts=alts, no_gt=no_gt,
                      id="." if rng.random() < 0.7 else "rs%d" % rng.randrange(10 ** 6),
                      qual=None if rng.random() < 0.6 else rng.choice([0, 10, 29.5, 100, 3000]),
@@ -156,7 +160,7 @@ def random_sample_map(rng, samples, npops=None, subset=True):
     chosen = rng.sample(samples, k)
     npops = npops if npops is not None else rng.randint(1, min(4, k))
     npops = min(npops, k)
-    labels = rng.sample(["A", "B", "popC", "D_4", "e", "YRI", "CEU", "x.y", "P-1"], npops)
+    labels = rng.sample(["A", "B", "popC", "D_4", "e", "YRI", "CEU", "x.y", "P-1", "East Asia", "East Africa"], npops)
     if rng.random() < 0.3:
         labels[rng.randrange(npops)] = None          # one unnamed population
     assign = [labels[i] for i in range(npops)] + [rng.choice(labels) for _ in range(k - npops)]
